@@ -4,7 +4,7 @@ add("C01", "exploration",
     "metamorphic laws (scaling, additivity, period ordering and range). Held-on-K-executions, not a proof.",
     "trusts numpy float64, xarray accessors, the independent oracle in vmon/oracles/spectral.py; "
     "bin widths of non-uniform direction grids come from the object (judged by C02)",
-    "runtime postcondition contracts (icontract) + metamorphic monitors over seeded workloads", "4/C01")
+    "runtime postcondition contracts (icontract) + metamorphic monitors + history-on-one-object vs fresh-object monitor over seeded workloads", "4/C01")
 add("C02", "exploration",
     "Postconditions on direction_step/e/a1/b1/a2/b2 recompute wrapped bin widths and weighted sums from the raw "
     "arrays for hundreds to tens of thousands of seeded 2D spectra on hostile direction grids (rotated, offset, "
@@ -12,19 +12,19 @@ add("C02", "exploration",
     "parameter and carried-over variable. Held-on-K-executions.",
     "trusts numpy/xarray and the oracle; assumes all direction gaps < 180 degrees; accepts forward/backward/"
     "centred wrapped differences as bin width on non-uniform grids",
-    "runtime postcondition contracts on class properties + paired-execution (2D vs 1D) monitor", "4/C02")
+    "runtime postcondition contracts on class properties + paired-execution (2D vs 1D) monitor + history-on-one-object vs fresh-object monitor", "4/C02")
 add("C03", "exploration",
     "Definitions judged by postconditions (independent band-weighted trapezoid, atan2, spread formula, ranges) on "
     "every call; rotation by k bins and mirror image judged by paired executions of the real code "
     "(quick 4 random k per case, thorough all k). Held-on-K-executions.",
     "trusts the oracle; energy without NaN; angular comparisons modulo 360 with 1e-6 degree bound",
-    "runtime postcondition contracts + metamorphic (rotation/mirror) pair monitors", "4/C03")
+    "runtime postcondition contracts + metamorphic (rotation/mirror) pair monitors + history-on-one-object vs fresh-object monitor", "4/C03")
 add("C04", "exploration",
     "Postconditions recompute the first in-band argmax by explicit loop for spectra with ties, plateaus, "
     "edge peaks, out-of-band global peaks, NaN bins; batch members are re-run alone and compared; "
     "peak wavenumber judged by the dispersion residual at each point's own depth. Held-on-K-executions.",
     "bands whose in-band maximum is <= 0 are not judged (peak undefined); whole-NaN spectra excluded",
-    "runtime postcondition contracts + batch-vs-single paired executions", "4/C04")
+    "runtime postcondition contracts + batch-vs-single paired executions + history-on-one-object vs fresh-object monitor", "4/C04")
 add("C12", "exploration",
     "Seeded spectra with analytic c*f^-4 ranges (both methods must return exactly c) and random spectra (peak oracle), "
     "all layouts, both conventions, non-default constants, 2D inputs vs their 1D reduction; closed form, log law, "
@@ -50,7 +50,7 @@ add("C07", "exploration",
     "by an independent residual, asymptotes, cg against the analytic dw/dk, monotonicity on sweeps. One recorded "
     "known finding (sub-1e-6 non-monotonicity in d at kd=5). Held-on-K-executions.",
     "g=9.81; oracle true_k by bisection; d-monotonicity required only above 1e-6 relative",
-    "runtime residual monitors over seeded and adversarial sweeps + bounds-checked JIT in thorough", "4/C07")
+    "runtime residual monitors over seeded and adversarial sweeps + history-on-one-object vs fresh-object monitor (depth changed in place) + bounds-checked JIT in thorough", "4/C07")
 add("C13", "exploration",
     "Seeded datasets/spectra x grids x targets (nodes, end points, mid points, outside, datetime forms) judged "
     "against an explicit-search reference with the NaN/half-weight rule, scipy RegularGridInterpolator for "
